@@ -4,6 +4,7 @@ package driver
 
 import (
 	"fmt"
+	"strconv"
 	"strings"
 	"unicode/utf8"
 
@@ -123,16 +124,28 @@ func RangeCmp(left, rawLo, rawHi, lo, hi string, inclusive bool) string {
 	return left + " > " + lo + " AND " + left + " < " + hi
 }
 
+// IntBound / FloatBound: a bound text read as a base-10 integer / as a 64-bit decimal number
+// (the open end '*' reads as 0 and is never printed).
+func IsIntBound(s string) bool { _, err := strconv.Atoi(s); return s == "'*'" || err == nil }
+func IntBound(s string) int    { v, _ := strconv.Atoi(s); return v }
+func IsFloatBound(s string) bool {
+	_, err := strconv.ParseFloat(s, 64)
+	return s == "'*'" || err == nil
+}
+func FloatBound(s string) float64 {
+	v, _ := strconv.ParseFloat(s, 64)
+	return v
+}
+
 // RangeText: what the inline renderer writes for two bound texts: integers are compared
 // as integers, other numbers as numbers with two decimals, everything else with BETWEEN.
+// (Stated with strconv directly, not through the code's helpers toInts/toFloats.)
 func RangeText(left, lo, hi string, inclusive bool) string {
-	iMin, iMax, err := toInts(lo, hi)
-	if err == nil {
-		return RangeCmp(left, lo, hi, fmt.Sprintf("%d", iMin), fmt.Sprintf("%d", iMax), inclusive)
+	if IsIntBound(lo) && IsIntBound(hi) {
+		return RangeCmp(left, lo, hi, fmt.Sprintf("%d", IntBound(lo)), fmt.Sprintf("%d", IntBound(hi)), inclusive)
 	}
-	fMin, fMax, ferr := toFloats(lo, hi)
-	if ferr == nil {
-		return RangeCmp(left, lo, hi, fmt.Sprintf("%.2f", fMin), fmt.Sprintf("%.2f", fMax), inclusive)
+	if IsFloatBound(lo) && IsFloatBound(hi) {
+		return RangeCmp(left, lo, hi, fmt.Sprintf("%.2f", FloatBound(lo)), fmt.Sprintf("%.2f", FloatBound(hi)), inclusive)
 	}
 	return left + " BETWEEN " + lo + " AND " + hi
 }
